@@ -322,8 +322,11 @@ def run_contract(cid, cfg, values, rng=None):
         out['status'] = 'out-of-domain'
         out['detail'] = str(e)
     except Exception as e:
-        out['status'] = 'contract-error'
-        out['detail'] = traceback.format_exc()[-1500:]
+        if ck.failed:
+            out['status'] = 'aborted-after-failed-clause'      # e.g. indexing a result whose length clause already failed
+        else:
+            out['status'] = 'contract-error'
+            out['detail'] = traceback.format_exc()[-1500:]
     finally:
         if orig is not None:
             np.random.uniform = orig
